@@ -65,12 +65,15 @@ func (c *Collection) Snapshot(dst io.Writer) error {
 
 	// Take a snapshot of the current state
 	defer os.Remove(recorder.Name())
+	verifYield("snapshot:recorder-open", 0)
 	if _, err := c.writeState(s2.NewWriter(dst)); err != nil {
 		return err
 	}
 
 	// Close the recorder
+	verifYield("snapshot:pre-close", 0)
 	c.recorderClose()
+	verifYield("snapshot:pre-copy", 0)
 	return recorder.Copy(dst)
 }
 
@@ -129,6 +132,7 @@ func (c *Collection) writeState(dst io.Writer) (int64, error) {
 
 	// Write each chunk
 	if err := writer.WriteRange(chunks, func(i int, w *iostream.Writer) error {
+		verifYield("snapshot:pre-chunk", uint32(i))
 		return c.readChunk(commit.Chunk(i), func(lastCommit uint64, chunk commit.Chunk, fill bitmap.Bitmap) error {
 			offset := chunk.Min()
 
